@@ -8,11 +8,13 @@ package main
 // the model's statement is executed over the databases (model/LogqlMetricExec.v) and compared with metric_ref_db.
 
 import (
+	"encoding/hex"
 	"fmt"
 	"math/rand"
 	"regexp"
 	"strings"
 	"time"
+	"unicode/utf8"
 
 	"verif/harness/coqx"
 )
@@ -27,14 +29,35 @@ type XSample struct {
 	Fp   int64  `json:"fp"`
 	Ts   int64  `json:"ts"`
 	Line string `json:"line"`
-	Type int64  `json:"type"`
+	// the bytes of a line that is not well-formed UTF-8, in hex (encoding/json would replace them by U+FFFD); overrides Line
+	LineHex string `json:"line_hex,omitempty"`
+	Type    int64  `json:"type"`
+}
+
+// the stored bytes of a sample
+func (x XSample) bytes() string {
+	if x.LineHex != "" {
+		if b, err := hex.DecodeString(x.LineHex); err == nil {
+			return string(b)
+		}
+	}
+	return x.Line
+}
+
+func mkSample(fp, ts int64, line string, tp int64) XSample {
+	if !utf8.ValidString(line) {
+		return XSample{Fp: fp, Ts: ts, LineHex: hex.EncodeToString([]byte(line)), Type: tp}
+	}
+	return XSample{Fp: fp, Ts: ts, Line: line, Type: tp}
 }
 type XDB struct {
 	Series  []XSeries `json:"series"`
 	Samples []XSample `json:"samples"`
 }
 
-var xLines = []string{"x=3;lvl=a", "x=1.5;lvl=b", "x=10;lvl=a", "err x=2", "7", "2.5", "x=4", "x=;lvl=a", "lvl=b", "err", ""}
+var xLines = []string{"x=3;lvl=a", "x=1.5;lvl=b", "x=10;lvl=a", "err x=2", "7", "2.5", "x=4", "x=;lvl=a", "lvl=b", "err", "",
+	// bytes are not characters (seed C08-g: lengthUTF8 for length): 2-, 3- and 4-byte sequences, a combining mark, ill-formed bytes
+	"x=3;lvl=a;m=\u65e5\u672c\u8a9e", "err \u00fc x=2", "x=4 \U0001F600", "e\u0301", "\u20ac", "\u65e5\u672c\u8a9e\u306e\u30ed\u30b0 lvl=b", "err \x80\xbf", "x=1.5;lvl=b \xe6\x97"}
 
 func xMatchers(r *rand.Rand) string {
 	ms := []string{`a="b"`}
@@ -325,7 +348,7 @@ func xDB(r *rand.Rand, c Ctx) XDB {
 			default:
 				ts = c.FromNs + int64(r.Intn(int((c.ToNs-c.FromNs)/1e6)))*1e6
 			}
-			db.Samples = append(db.Samples, XSample{Fp: s.Fp, Ts: ts, Line: pick(r, xLines), Type: s.Type})
+			db.Samples = append(db.Samples, mkSample(s.Fp, ts, pick(r, xLines), s.Type))
 		}
 	}
 	r.Shuffle(len(db.Samples), func(i, j int) { db.Samples[i], db.Samples[j] = db.Samples[j], db.Samples[i] })
@@ -344,7 +367,7 @@ func xdbML(db XDB) string {
 		ser = append(ser, y.Rec("ts_day", y.Z(s.Day), "ts_fp", y.Z(s.Fp), "ts_labels", y.List(ls), "ts_type", y.Z(s.Type)))
 	}
 	for _, x := range db.Samples {
-		sam = append(sam, y.Rec("x_fp", y.Z(x.Fp), "x_ts", y.Z(x.Ts), "x_line", y.Str(x.Line), "x_type", y.Z(x.Type)))
+		sam = append(sam, y.Rec("x_fp", y.Z(x.Fp), "x_ts", y.Z(x.Ts), "x_line", y.Str(x.bytes()), "x_type", y.Z(x.Type)))
 	}
 	return y.Rec("d_gin", y.List(gin), "d_series", y.List(ser), "d_samples", y.List(sam))
 }
